@@ -7,6 +7,7 @@ from ..core import AnalysisError, call_name, dotted, kwarg, norm, walk_no_nested
 from ..effects import analyse
 from ..guards import A, And, Not, Or, T, implies, path_formula, show_formula, sites
 from ..registry import describe, rule
+from .. import tmatch as tm
 from ..util import calls_named, neighbour_kind, peel, resolve, returns_of
 from . import shared
 
@@ -105,12 +106,31 @@ def surgery(rc):
         rc.fail(g, g.node, "the intervened nodes' CPDs must be replaced by parent-free ones", construct="no cpd surgery")
 
 
+class _Defs(dict):
+    params = ()
+
+
 def _defs(f):
-    d = {}
+    d = _Defs()
+    d.params = tuple(f.params)
     for n in walk_no_nested(f.node):
         if isinstance(n, ast.Assign) and len(n.targets) == 1 and isinstance(n.targets[0], ast.Name):
             d[n.targets[0].id] = n.value
     return d
+
+
+def _deep(e, d, depth=0):
+    """inline single-definition local names recursively (text only)"""
+    import copy as _copy
+    if e is None or depth > 6:
+        return e
+
+    class R(ast.NodeTransformer):
+        def visit_Name(self, n):
+            if n.id in d and n.id not in getattr(d, "params", ()) and isinstance(n.ctx, ast.Load) and not any(isinstance(x, ast.Name) and x.id == n.id for x in ast.walk(d[n.id])):
+                return _deep(d[n.id], d, depth + 1)
+            return n
+    return R().visit(_copy.deepcopy(e))
 
 
 @rule("C13.emit", "adjustment-set enumerators emit only validated sets; candidates exclude X, Y, latents and descendants of X", floor=4)
@@ -118,7 +138,8 @@ def emit(rc):
     repo = rc.repo
     f = repo.func(CI, "CausalInference.get_all_backdoor_adjustment_sets")
     X, Y = f.params[1], f.params[2]
-    app = sites(f.node, lambda n: isinstance(n, ast.Call) and call_name(n) == "append" and "valid" in norm(n.func.value))
+    outs = {b["_V"] for r in returns_of(f) if r.value is not None for b in [tm.is_(r.value, "frozenset(_V)")] if b}
+    app = sites(f.node, lambda n: isinstance(n, ast.Call) and call_name(n) == "append" and dotted(n.func.value) in outs)
     ok = False
     for s in app:
         elem = s.node.args[0]
@@ -137,7 +158,8 @@ def emit(rc):
     if not ok and not rc.report.findings:
         rc.fail(f, f.node, "no validated emission found", construct="backdoor emit")
     d = _defs(f)
-    cands = d.get("possible_adjustment_variables")
+    pw = [c for c in repo.calls_in(f) if call_name(c) == "_powerset" and c.args]
+    cands = _deep(pw[0].args[0], d) if pw else None
     txt = norm(cands, 400) if cands is not None else ""
     rc.ob(f"back-door candidates {txt}")
     need = {"observed_variables": "latent variables must not be candidates", f"{{{X}}}": "X must not be a candidate", f"{{{Y}}}": "Y must not be a candidate",
@@ -164,7 +186,8 @@ def emit(rc):
     if not ok:
         rc.fail(f, f.node, "front-door sets must be filtered by the front-door validator applied to that very set", construct="frontdoor emit")
     d = _defs(f)
-    txt = norm(d.get("possible_adjustment_variables"), 400) if d.get("possible_adjustment_variables") is not None else ""
+    pw = [c for c in ast.walk(f.node) if isinstance(c, ast.Call) and call_name(c) == "_powerset" and c.args]
+    txt = norm(_deep(pw[0].args[0], d), 400) if pw else ""
     for k in ("observed_variables", f"{{{X}}}", f"{{{Y}}}"):
         if k not in txt:
             rc.fail(f, f.node, f"front-door candidates must exclude X, Y and latent variables (missing {k})", construct=f"frontdoor candidates {k}")
@@ -189,12 +212,12 @@ def route(rc):
         a0 = dotted(c.args[0]) if c.args else None
         a1 = dotted(c.args[1]) if len(c.args) > 1 else None
         ob = kwarg(c, "observed") or (c.args[2] if len(c.args) > 2 else None)
-        obr = resolve(ob, d) if ob is not None else None
+        obr = _deep(ob, d) if ob is not None else None
         obt = norm(obr) if obr is not None else ""
         par_loop = any(dotted(t) == a0 and neighbour_kind(it, d, of=X) == "parents" for t, it in s.loops)
         negated = isinstance(getattr(c, "_parent", None), ast.UnaryOp)
         rc.ob(f"back-door validator: {norm(c)} with observed = {obt}; over parents of X: {par_loop}; negated: {negated}")
-        if par_loop and a1 == Y and f"[{X}]" in obt and ("Z" in obt) and negated:
+        if par_loop and a1 == Y and f"[{X}]" in obt and any(isinstance(x_, ast.Name) and x_.id == Z for x_ in ast.walk(obr)) and negated:
             ok = True
     if not ok:
         rc.fail(f, f.node, "back-door validity = every parent of X is d-separated from Y given {X} ∪ Z", construct="backdoor validator")
@@ -204,10 +227,16 @@ def route(rc):
 
     fd = repo.func(CI, "CausalInference.is_valid_frontdoor_adjustment_set")
     bd_calls = [c for c in repo.calls_in(fd) if call_name(c) == "is_valid_backdoor_adjustment_set"]
-    sigs = sorted(tuple(dotted(a) for a in c.args) for c in bd_calls)
-    Xf, Yf = fd.params[1], fd.params[2]
-    rc.ob(f"front-door validator uses the back-door validator with {sigs}")
-    if (Xf, "zz") not in sigs or ("zz", Yf, Xf) not in sigs:
+    Xf, Yf, Zf = fd.params[1], fd.params[2], fd.params[3]
+    over_z = set()
+    for n_ in ast.walk(fd.node):
+        if isinstance(n_, ast.comprehension) and dotted(n_.iter) == Zf and isinstance(n_.target, ast.Name):
+            over_z.add(n_.target.id)
+        if isinstance(n_, ast.For) and dotted(n_.iter) == Zf and isinstance(n_.target, ast.Name):
+            over_z.add(n_.target.id)
+    sigs = sorted(tuple("·" if dotted(a) in over_z else dotted(a) for a in c.args) for c in bd_calls)
+    rc.ob(f"front-door validator uses the back-door validator with {sigs} (· = each mediator in {Zf})")
+    if (Xf, "·") not in sigs or ("·", Yf, Xf) not in sigs:
         rc.fail(fd, fd.node, "front-door validity: (2) no unblocked back-door path from X to each mediator and (3) X blocks every back-door path from each mediator to Y — "
                 "both decided by the back-door validator", construct="frontdoor via backdoor validator")
     for fn_ in repo.module(CI).classes["CausalInference"].methods.values():
@@ -263,7 +292,13 @@ def route(rc):
     q = repo.func(CI, "CausalInference.query")
     d = _defs(q)
     adj = [n for n in walk_no_nested(q.node) if isinstance(n, ast.Assign) and dotted(n.targets[0]) == "adjustment_set"]
-    okq = any("predecessors(" in norm(n.value, 300) and "do_vars" in norm(n.value, 300) for n in adj)
+    okq = False
+    for n in adj:
+        b_ = tm.is_(n.value, "set(chain(*[self.model.predecessors(_v) for _v in __DV]))")
+        if b_ is None:
+            continue
+        dv = _deep(b_["__DV"], d)
+        okq = okq or any(tm.is_(dv, t_) is not None for t_ in ("[_a for _a, _b in do.items()]", "list(do)", "list(do.keys())", "do.keys()", "do", "[_a for _a in do]"))
     rc.ob(f"default adjustment set = parents of the do-variables: {okq}")
     if not okq:
         rc.fail(q, q.node, "without an explicit adjustment set the parents of the intervened variables are used", construct="default adjustment")
@@ -271,10 +306,14 @@ def route(rc):
     if not lat:
         rc.fail(q, q.node, "latent parents of intervened variables must be rejected (no valid default adjustment)", construct="latent parents")
     # P(z) must be the JOINT over the adjustment set (a product of marginals is wrong for dependent adjustment variables)
-    pz = sorted([n for n in walk_no_nested(q.node) if isinstance(n, ast.Assign) and dotted(n.targets[0]) == "p_z"], key=lambda n: n.lineno)
+    _inf = [b["_I"] for _, b in tm.find_all(q.node, "_I = inference_algo(self.model)")]
+    infer_v = _inf[0] if _inf else None
+    _pzn = [b["_PZ"] for _, b in tm.find_all(q.node, "_PZ.get_value(**_AE)", nested=True)]
+    pz_name = _pzn[0] if _pzn else None
+    pz = sorted([n for n in walk_no_nested(q.node) if isinstance(n, ast.Assign) and pz_name is not None and dotted(n.targets[0]) == pz_name], key=lambda n: n.lineno)
     for n in pz:
         v = n.value
-        calls_q = [c for c in ast.walk(v) if isinstance(c, ast.Call) and call_name(c) == "query" and dotted(c.func.value) == "infer"]
+        calls_q = [c for c in ast.walk(v) if isinstance(c, ast.Call) and call_name(c) == "query" and dotted(c.func.value) == infer_v]
         if isinstance(v, ast.Call) and call_name(v) == "DiscreteFactor":
             continue
         rc.ob(f"p_z = {norm(v, 110)}")
@@ -286,7 +325,7 @@ def route(rc):
     if not pz:
         raise AnalysisError("CausalInference.query: p_z not found")
     # the do-variables always reach the inner queries as evidence
-    inner = [c for c in calls_named(q, "query") if dotted(c.func.value) == "infer"]
+    inner = [c for c in calls_named(q, "query") if dotted(c.func.value) == infer_v]
     uses_do = 0
     for s in sites(q.node, lambda n: n in inner):
         ev = s.node.args[1] if len(s.node.args) > 1 else kwarg(s.node, "evidence")
